@@ -522,6 +522,16 @@ class Runner:
                 res.violations.append(dict(site=site, inputs=to_json(cin), observed=observed, info=jsonable(info), exact=exact,
                                            job=self.job.name, prop=self.job.prop))
                 return
+        # last resort: small perturbations of the solver's witness (de-gridding: values with many decimals, broken ties);
+        # a perturbed input counts only if the same requirement fails on the real code
+        for cin in tried[:2]:
+            for k, eps in enumerate((1.0 / 3e9, 7.0 / 9e11, -1.0 / 7e10)):
+                pin = _perturb(cin, eps)
+                ok, observed = self._replay_fails(pin, site)
+                if ok:
+                    res.violations.append(dict(site=site, inputs=to_json(pin), observed=observed, info=jsonable(info), exact=False,
+                                               job=self.job.name, prop=self.job.prop, note="perturbed solver witness"))
+                    return
         res.unconfirmed.append(dict(site=site, inputs=to_json(tried[-1]) if tried else None, job=self.job.name))
 
     def _witness_models(self, ctx, extra=None):
@@ -785,6 +795,22 @@ def _has_uf(v):
     if isinstance(v, (list, tuple)):
         return any(_has_uf(x) for x in v)
     return False
+
+
+def _perturb(x, eps, _i=[0]):
+    """copy of a concrete input structure with every float array element nudged by a different small amount"""
+    if isinstance(x, np.ndarray):
+        if x.dtype.kind == 'f' and x.size:
+            k = np.arange(1, x.size + 1, dtype=float).reshape(x.shape)
+            return x + eps * k
+        return x.copy()
+    if isinstance(x, list):
+        return [_perturb(v, eps) for v in x]
+    if isinstance(x, tuple):
+        return tuple(_perturb(v, eps) for v in x)
+    if isinstance(x, dict):
+        return {k: _perturb(v, eps) for k, v in x.items()}
+    return x
 
 
 def _copy_inputs(x):
